@@ -110,6 +110,11 @@ pub fn run_case(out: &mut Out, id: u64, brick: f64, src_idx: usize, init: Candle
 			inputs[i]
 		};
 		i += 1;
+		// a composed source of a finite candle can still overflow in the precision of the build (tp = (h + l + c) / 3 next to
+		// f32::MAX): such a candle has no price to offer and ends the case
+		if !(c.source(src) as f64).is_finite() {
+			break;
+		}
 		let pre = flat_string(&m);
 		match guard(|| m.next(&c)) {
 			None => {
